@@ -269,14 +269,16 @@ pub fn par_shards(ctx: &Ctx, n: usize, f: impl Fn(usize) -> Report + Sync) -> Re
     let results: std::sync::Mutex<Vec<(usize, Report)>> = std::sync::Mutex::new(Vec::new());
     std::thread::scope(|s| {
         for _ in 0..ctx.threads.min(n) {
-            s.spawn(|| loop {
+            // generous stacks: instrumented builds (ASan) use far more stack than the optimised one
+            std::thread::Builder::new().stack_size(64 << 20).spawn_scoped(s, || loop {
                 let i = next.fetch_add(1, std::sync::atomic::Ordering::Relaxed);
                 if i >= n {
                     break;
                 }
                 let r = f(i);
                 results.lock().unwrap().push((i, r));
-            });
+            })
+            .expect("cannot spawn a worker thread");
         }
     });
     let mut v = results.into_inner().unwrap();
